@@ -182,6 +182,27 @@ pub struct BN {
     pub seq: u64,
 }
 
+/// 20  path of `/scal/{u}/{i}/{b}/{c}/{e}`: one variable of each scalar kind
+#[derive(Deserialize, Serialize, JsonSchema, Debug)]
+pub struct SC5 {
+    pub u: u16,
+    pub i: i32,
+    pub b: bool,
+    pub c: char,
+    pub e: Color,
+}
+/// 21  first-page scan parameters of the paginated `/page`
+#[derive(Deserialize, Serialize, JsonSchema, Debug)]
+pub struct ScanP {
+    pub min: Option<u32>,
+    pub kind: Option<Color>,
+    pub flag: Option<bool>,
+}
+#[derive(Deserialize, Serialize, JsonSchema, Debug)]
+pub struct PageSel {
+    pub last: u32,
+}
+
 // ------------------------------------------------------------------ canon
 
 fn hexs(s: &str) -> String {
@@ -238,7 +259,8 @@ pub fn classify(msg: &str) -> &'static str {
 
 // ------------------------------------------------------------------ server
 
-pub const EPS: &[&str] = &["p3", "wild", "q6", "json", "form", "j2", "raw", "stream", "rawreq", "mp", "all"];
+pub const EPS: &[&str] =
+    &["p3", "wild", "q6", "json", "form", "j2", "raw", "stream", "rawreq", "mp", "all", "scal", "page", "bigjson", "bigform", "tls"];
 
 pub fn ep_index(ep: &str) -> usize {
     EPS.iter().position(|e| *e == ep).expect("known endpoint")
@@ -398,6 +420,54 @@ async fn ep_all(rq: Rq, p: Path<PN>, q: Query<QN>, b: TypedBody<BN>) -> Result<H
     echo(&rq, v)
 }
 
+#[endpoint { method = GET, path = "/scal/{u}/{i}/{b}/{c}/{e}" }]
+async fn ep_scal(rq: Rq, p: Path<SC5>) -> Result<HttpResponseOk<Echo>, HttpError> {
+    enter(&rq, "scal");
+    echo(&rq, canon_of(&p.into_inner()))
+}
+
+/// Paginated: the first-page scan parameters go through `from_map`.
+#[endpoint { method = GET, path = "/page" }]
+async fn ep_page(
+    rq: Rq,
+    q: Query<dropshot::PaginationParams<ScanP, PageSel>>,
+) -> Result<HttpResponseOk<dropshot::ResultsPage<Echo>>, HttpError> {
+    enter(&rq, "page");
+    let v = match &q.into_inner().page {
+        dropshot::WhichPage::First(s) => canon_of(s),
+        dropshot::WhichPage::Next(sel) => format!("next{}", sel.last),
+    };
+    let e = echo(&rq, v)?.0;
+    Ok(HttpResponseOk(dropshot::ResultsPage { next_page: None, items: vec![e] }))
+}
+
+pub const BIG_BODY_CAP: usize = 262144;
+
+#[endpoint { method = POST, path = "/bigjson", request_body_max_bytes = BIG_BODY_CAP }]
+async fn ep_bigjson(rq: Rq, b: TypedBody<J4>) -> Result<HttpResponseOk<Echo>, HttpError> {
+    enter(&rq, "bigjson");
+    echo(&rq, canon_of(&b.into_inner()))
+}
+
+#[endpoint {
+    method = POST,
+    path = "/bigform",
+    content_type = "application/x-www-form-urlencoded",
+    request_body_max_bytes = BIG_BODY_CAP,
+}]
+async fn ep_bigform(rq: Rq, b: TypedBody<F3>) -> Result<HttpResponseOk<Echo>, HttpError> {
+    enter(&rq, "bigform");
+    echo(&rq, canon_of(&b.into_inner()))
+}
+
+/// For the TLS stream: what the handler's context says the peer is, with the nonce.
+#[endpoint { method = GET, path = "/tls/{nonce}" }]
+async fn ep_tls(rq: Rq, p: Path<PN>) -> Result<HttpResponseOk<Echo>, HttpError> {
+    enter(&rq, "tls");
+    let v = format!("s{}", hex(format!("{}|{}", rq.request.remote_addr(), p.into_inner().nonce).as_bytes()));
+    echo(&rq, v)
+}
+
 pub fn make_api() -> ApiDescription<Arc<SrvCtx>> {
     let mut api = ApiDescription::new();
     api.register(ep_p3).unwrap();
@@ -411,6 +481,11 @@ pub fn make_api() -> ApiDescription<Arc<SrvCtx>> {
     api.register(ep_rawreq).unwrap();
     api.register(ep_mp).unwrap();
     api.register(ep_all).unwrap();
+    api.register(ep_scal).unwrap();
+    api.register(ep_page).unwrap();
+    api.register(ep_bigjson).unwrap();
+    api.register(ep_bigform).unwrap();
+    api.register(ep_tls).unwrap();
     api
 }
 
@@ -578,6 +653,13 @@ pub fn digest(resp: Option<RawResponse>) -> Got {
     if r.status == 200 {
         if let Ok(e) = serde_json::from_slice::<Echo>(&r.body) {
             g.echo = e;
+        } else if let Ok(v) = serde_json::from_slice::<serde_json::Value>(&r.body) {
+            // the paginated endpoint wraps its echo in a `ResultsPage`
+            if let Some(first) = v.get("items").and_then(|i| i.get(0)) {
+                if let Ok(e) = serde_json::from_value::<Echo>(first.clone()) {
+                    g.echo = e;
+                }
+            }
         }
     } else if r.status >= 400 {
         let ok = match serde_json::from_slice::<serde_json::Value>(&r.body) {
@@ -900,4 +982,62 @@ pub fn spell_multipart_ct(rng: &mut Rng, boundary: &[u8]) -> Vec<u8> {
         put_other(rng, &mut v);
     }
     v
+}
+
+// ------------------------------------------------------------------ long / non-ASCII ill-typed values
+
+/// Ill-typed values (never a number, boolean, single character or variant
+/// name) for the error paths: lengths around powers of two, and multi-byte
+/// UTF-8 characters placed so that they straddle every byte offset from 56 to
+/// 72 and the offsets around 128, 256 and 1024.  `(label, value)`; the label
+/// tells how the value was made.
+pub fn long_values() -> Vec<(String, String)> {
+    let mut v: Vec<(String, String)> = Vec::new();
+    let chars: [(usize, char); 3] = [(2, 'é'), (3, '中'), (4, '😀')];
+    let mut offsets: Vec<usize> = (56..=72).collect();
+    for c in [128usize, 256, 1024] {
+        for d in 0..5 {
+            offsets.push(c - 2 + d);
+        }
+    }
+    for o in offsets {
+        for (w, ch) in chars {
+            for k in 1..w {
+                // the character starts at byte o-k and ends at o-k+w: offset o is inside it
+                let start = o - k;
+                let mut s = "a".repeat(start);
+                s.push(ch);
+                s.push_str("tail-xyz");
+                v.push((format!("straddle{}w{}k{}", o, w, k), s));
+            }
+        }
+    }
+    for len in [32usize, 63, 64, 65, 127, 128, 255, 256, 1024, 4096] {
+        v.push((format!("ascii{}", len), "x".repeat(len)));
+        for (w, ch) in chars {
+            // exactly `len` bytes: ASCII padding in front so that the rest is whole characters
+            let n = len / w;
+            let pad = len - n * w;
+            let mut s = "p".repeat(pad);
+            for _ in 0..n {
+                s.push(ch);
+            }
+            v.push((format!("fill{}w{}", len, w), s));
+            // ASCII then one character ending exactly at `len`, and one starting at `len - 1`
+            let mut s = "a".repeat(len - 1);
+            s.push(ch);
+            v.push((format!("edge{}w{}", len, w), s));
+        }
+    }
+    v
+}
+
+/// 65536-byte values: only ASCII and one multi-byte fill (they do not fit a
+/// request target at all: `http::Uri` stops at 65534 bytes).
+pub fn huge_values() -> Vec<(String, String)> {
+    let mut s = "p".repeat(65536 % 3);
+    for _ in 0..(65536 / 3) {
+        s.push('中');
+    }
+    vec![("ascii65536".to_string(), "x".repeat(65536)), ("fill65536w3".to_string(), s)]
 }
